@@ -77,7 +77,7 @@ def instances(tier, seed):
         if CHECKERS[c] == "nohook" and h:
             continue
         for o in range(len(ORDERS)):
-            g = "core" if (tier == "thorough" or rng.random() < 0.2) else "ext"
+            g = "core" if (tier == "thorough" or rng.random() < 0.1) else "ext"
             out.append((g, dict(kind="history", run1=[h, c, o], nruns=nruns if tier == "quick" else 3)))
     out.sort(key=lambda x: x[0] != "core")
     return out
